@@ -18,6 +18,9 @@ def run(ctx):
         chunks, procs = 32, 8
     progcheck.run(ctx, "MaskEquiv", "Equivalent", "mask", args, chunks, procs)
     ctx.exhaustive = True
+    # the language is the one Match decides on real requests too: patterns instantiated into URLs (mixed case, long), the
+    # answer of the real rule compared with Mask!Accepts
+    progcheck.request_side(ctx, "")
 
 
 def replay(ctx, path):
